@@ -63,12 +63,15 @@ def build_cli(work):
 CLI_CONFIG = 'deployers:\n  scripted:\n    deployer_name: scripted\nlog:\n  level: error\n'
 
 
-def run_cli(binary, ctxdir, script, args, cwd=None, timeout=60, sigint_after=None):
+def run_cli(binary, ctxdir, script, args, cwd=None, timeout=60, sigint_after=None, ledger=None):
     """runs the command-line program; returns (exit code, stdout, stderr, seconds). sigint_after: send an interrupt after
-    that many seconds (as a terminal's ctrl-C would)"""
+    that many seconds (as a terminal's ctrl-C would). ledger: file the scripted deployer appends its deployments,
+    closed connections and executions to"""
     import signal
     import time
     env = dict(GOENV, VERIF_CLI_SCRIPT=json.dumps(script))
+    if ledger:
+        env['VERIF_EXEC_LOG'] = ledger
     t0 = time.time()
     p = subprocess.Popen([binary] + args, cwd=cwd or ctxdir, env=env, stdout=subprocess.PIPE, stderr=subprocess.PIPE, text=True)
     try:
@@ -85,6 +88,23 @@ def run_cli(binary, ctxdir, script, args, cwd=None, timeout=60, sigint_after=Non
         out, err = p.communicate()
         return 124, out, err, time.time() - t0
     return p.returncode, out, err, time.time() - t0
+
+
+def read_ledger(path):
+    """(deployed connection ids, closed connection ids, number of executions) from a scripted-deployer ledger"""
+    dep, clo, ex = set(), set(), 0
+    if os.path.exists(path):
+        for line in open(path):
+            w = line.split()
+            if not w:
+                continue
+            if w[0] == 'deploy':
+                dep.add(w[1])
+            elif w[0] == 'close':
+                clo.add(w[1])
+            elif w[0] == 'exec':
+                ex += 1
+    return dep, clo, ex
 
 
 # ---------------------------------------------------------------------------------------------------------------
@@ -583,6 +603,22 @@ def tlc(module_dir, module, cfg_text, work, extra_args=(), timeout_s=600, worker
     cmd = ['timeout', str(int(timeout_s)), 'tlc', '-metadir', os.path.join(d, 'md'), '-workers', str(workers)] + list(extra_args) + [module + '.tla']
     p = subprocess.run(cmd, cwd=d, capture_output=True, text=True, env=env)
     return p.returncode, p.stdout + p.stderr, d
+
+
+def apalache(module, args, work, timeout_s=300):
+    """Runs `apalache-mc check <args> <module>.tla` on a scratch copy of the module. Returns 'ok' (no error up to the given
+    length), 'error' (the checker found a counterexample) or 'failed: ...' (the tool itself did not finish)"""
+    d = tempfile.mkdtemp(prefix='apa-', dir=work)
+    shutil.copy(os.path.join(SPEC, module + '.tla'), d)
+    cmd = ['timeout', str(int(timeout_s)), 'apalache-mc', 'check', '--out-dir=' + os.path.join(d, 'out'), '--run-dir=' + os.path.join(d, 'run')] + list(args) + [module + '.tla']
+    p = subprocess.run(cmd, cwd=d, capture_output=True, text=True)
+    out = p.stdout + p.stderr
+    shutil.rmtree(d, ignore_errors=True)
+    if 'The outcome is: NoError' in out and p.returncode == 0:
+        return 'ok'
+    if 'The outcome is: Error' in out and p.returncode == 12:
+        return 'error'
+    return 'failed: rc=%s %s' % (p.returncode, out[-500:])
 
 
 def tlc_stats(out):
